@@ -1719,6 +1719,38 @@ def status_class(x):
 
 def check_c13(res, ctx):
     write_fault_stage(res, ctx, 40 if ctx.tier == "quick" else 300, 1500 if ctx.tier == "quick" else 20000)
+    real_sink_stage(res, ctx)
+
+
+def real_sink_stage(res, ctx):
+    """real failing sinks behind real stdio buffering (the budget stage above replaces fwrite itself):
+    /dev/full and a pipe nobody reads, unbuffered / 64 / 4096 bytes / line buffered; the sample files and
+    generated files read with the library and written again, plus two more small writes (defect F27)"""
+    import glob
+    r = ctx.rng
+    exe = core.build_harness("rsink", main="realsink.c")
+    rdir = os.path.join(core.CACHE, "rsink-files")
+    os.makedirs(rdir, exist_ok=True)
+    files = sorted(glob.glob(os.path.join(core.REPO, "tests", "samples", "*.sbdf")))
+    files = [f for f in files if os.path.getsize(f) <= (300000 if ctx.tier == "quick" else 10 ** 8)]
+    for i in range(40 if ctx.tier == "quick" else 400):
+        p = gen.rtable(r, consistent=True, maxcols=4, maxslices=3, big=(i % 10 == 0)).canon()
+        fn = os.path.join(rdir, "g%03d.sbdf" % i)
+        open(fn, "wb").write(bytes(p.encode().b))
+        files.append(fn)
+    rr = subprocess.run([exe] + files, stdout=subprocess.PIPE, stderr=subprocess.PIPE, text=True, env=core.ENV, timeout=3600)
+    rlines = [x for x in rr.stdout.splitlines() if x.startswith(("SAME", "DIFF"))]
+    res.cov["real_sink_runs"] = len(rlines)
+    res.add_cases(["realsink " + " ".join(x.split()[1:3]) + " " + os.path.basename(x.split()[-1]) for x in rlines],
+                  rule="the Spotfire samples and generated files written to /dev/full and to a pipe nobody reads, through stdio unbuffered / 64 / 4096 bytes / line buffered: after the first non-OK status every later write is non-OK; no run in which every call said OK has the stream's error indicator set", sample=1)
+    for x in rlines:
+        if x.startswith("DIFF"):
+            ctx.found_input = True
+            res.violation("c13 real sink: a write reported OK although the stream had refused bytes (an earlier call failed, or the error indicator is set): " + x[:300], [x], True)
+            break
+    if rr.returncode not in (0, 1) or len(rlines) < len(files):
+        ctx.found_input = True
+        res.violation("c13 real sink: the writer crashed or stopped (rc=%d): %s" % (rr.returncode, clean(rr.stderr)[-400:]), [], True)
 
 
 def write_fault_stage(res, ctx, ntab, lim, be=False):
